@@ -29,6 +29,9 @@ def jobs(tier):
         for m in ((3, 7) if q else (1, 2, 3, 5, 6, 7, 10, 13)):
             for order in (0, 1):
                 js.append(dict(name=f"pipeline[{L},m={m},order={order}]", fn="pipeline", args=[L, m, order], collect_models=1, expect=["decrypt(encrypt(x)) == x"]))
+    for L in ((0, 1, 3, 4, 7) if q else range(0, 13)):
+        js.append(dict(name=f"through_memoryview[{L}]", fn="through_memoryview", args=[L, 3], collect_models=1,
+                       expect=["through a memoryview: same result as on the bytearray (primitive 3)"]))
     for L0, L, m in (((2, 2, 3), (3, 4, 7)) if q else [(a, b, m) for a in (1, 2, 3) for b in (1, 2, 3, 4) for m in (3, 7)]):
         js.append(dict(name=f"after_earlier_calls[{L0},{L},m={m}]", fn="after_earlier_calls", args=[L0, L, m], collect_models=1,
                        expect=["after earlier calls: swap_multiples is an involution"]))
